@@ -1,6 +1,903 @@
 /- Helper lemmas for C15 (no property statements here; those live in Props/C15.lean). -/
 import Dawgs.Spec.C15
 import Dawgs.Proofs.C16
+set_option linter.unusedSimpArgs false
+set_option linter.unusedVariables false
 namespace Dawgs.C15
+open Dawgs.C16 (Sieve Ideal)
+
+/-! ### bit sets -/
+
+theorem hasBit_zero (j : Nat) : hasBit 0 j = false := by simp [hasBit]
+
+theorem hasBit_or (a b j : Nat) : hasBit (a ||| b) j = (hasBit a j || hasBit b j) := by
+  simp [hasBit, Nat.testBit_or]
+
+theorem hasBit_setBit (b i j : Nat) : hasBit (setBit b i) j = true ↔ hasBit b j = true ∨ j = i := by
+  unfold hasBit setBit
+  rw [Nat.testBit_or, Nat.one_shiftLeft, Nat.testBit_two_pow]
+  simp only [Bool.or_eq_true, decide_eq_true_eq]
+  constructor
+  · rintro (h | h)
+    · exact Or.inl h
+    · exact Or.inr h.symm
+  · rintro (h | h)
+    · exact Or.inl h
+    · exact Or.inr h.symm
+
+theorem hasBit_setBit_self (b i : Nat) : hasBit (setBit b i) i = true := (hasBit_setBit b i i).2 (Or.inr rfl)
+
+theorem hasBit_setBit_of (b i j : Nat) (h : hasBit b j = true) : hasBit (setBit b i) j = true :=
+  (hasBit_setBit b i j).2 (Or.inl h)
+
+theorem hasBit_or_left {a b j : Nat} (h : hasBit a j = true) : hasBit (a ||| b) j = true := by
+  rw [hasBit_or, h]; rfl
+
+theorem hasBit_or_right {a b j : Nat} (h : hasBit b j = true) : hasBit (a ||| b) j = true := by
+  rw [hasBit_or, h]; simp
+
+theorem hasBit_or_iff {a b j : Nat} : hasBit (a ||| b) j = true ↔ hasBit a j = true ∨ hasBit b j = true := by
+  rw [hasBit_or]; simp
+
+theorem hasBit_bitsOf (l : List Nat) (j : Nat) : hasBit (bitsOf l) j = true ↔ j ∈ l := by
+  induction l with
+  | nil => simp [bitsOf, hasBit_zero]
+  | cons x xs ih =>
+    show hasBit (setBit (bitsOf xs) x) j = true ↔ _
+    rw [hasBit_setBit, ih, List.mem_cons]
+    exact ⟨fun h => h.symm, fun h => h.symm⟩
+
+/-! ### reachability -/
+
+theorem Reach.trans {adj : Nat → List Nat} {u v w : Nat} (h1 : Reach adj u v) (h2 : Reach adj v w) :
+    Reach adj u w := by
+  induction h2 with
+  | refl => exact h1
+  | tail _ hm ih => exact Reach.tail ih hm
+
+theorem Reach.single {adj : Nat → List Nat} {u v : Nat} (h : v ∈ adj u) : Reach adj u v :=
+  Reach.tail (Reach.refl u) h
+
+theorem Reach.head {adj : Nat → List Nat} {u v w : Nat} (h : v ∈ adj u) (h2 : Reach adj v w) : Reach adj u w :=
+  (Reach.single h).trans h2
+
+/-- first-step decomposition -/
+theorem Reach.cases_head {adj : Nat → List Nat} {u w : Nat} (h : Reach adj u w) :
+    w = u ∨ ∃ y, y ∈ adj u ∧ Reach adj y w := by
+  induction h with
+  | refl => exact Or.inl rfl
+  | @tail v w' _ hm ih =>
+    rcases ih with rfl | ⟨y, hy, hr⟩
+    · exact Or.inr ⟨w', hm, Reach.refl _⟩
+    · exact Or.inr ⟨y, hy, Reach.tail hr hm⟩
+
+/-- a set containing `u` and closed under adjacency contains everything reachable from `u` -/
+theorem Reach.closed {adj : Nat → List Nat} {P : Nat → Prop} {u w : Nat} (h : Reach adj u w)
+    (hu : P u) (hc : ∀ x, P x → ∀ y, y ∈ adj x → P y) : P w := by
+  induction h with
+  | refl => exact hu
+  | tail _ hm ih => exact hc _ ih _ hm
+
+/-- reachability only depends on the adjacency of the nodes on the way -/
+theorem Reach.congr {adj adj' : Nat → List Nat} (h : ∀ v, adj v = adj' v) {u w : Nat} (hr : Reach adj u w) :
+    Reach adj' u w := by
+  induction hr with
+  | refl => exact Reach.refl _
+  | tail _ hm ih => exact Reach.tail ih (h _ ▸ hm)
+
+/-- reversing every edge reverses reachability -/
+theorem Reach.reverse {fwd bwd : Nat → List Nat} (hconv : ∀ v w, w ∈ fwd v ↔ v ∈ bwd w) {u w : Nat}
+    (h : Reach fwd u w) : Reach bwd w u := by
+  induction h with
+  | refl => exact Reach.refl _
+  | tail _ hm ih => exact Reach.head ((hconv _ _).1 hm) ih
+
+/-! ### list facts -/
+
+theorem getElem?_mem_drop {l : List Nat} {i n : Nat} (h : l[i]? = some n) : n ∈ l.drop i := by
+  have hi : i < l.length := by
+    rcases Nat.lt_or_ge i l.length with h' | h'
+    · exact h'
+    · rw [List.getElem?_eq_none h'] at h; cases h
+  rw [List.drop_eq_getElem_cons hi]
+  rw [List.getElem?_eq_getElem hi] at h
+  simp at h; simp [h]
+
+theorem mem_drop_succ_or {l : List Nat} {i n z : Nat} (h : l[i]? = some n) (hz : z ∈ l.drop i) :
+    z = n ∨ z ∈ l.drop (i + 1) := by
+  have hi : i < l.length := by
+    rcases Nat.lt_or_ge i l.length with h' | h'
+    · exact h'
+    · rw [List.getElem?_eq_none h'] at h; cases h
+  rw [List.drop_eq_getElem_cons hi] at hz
+  rw [List.getElem?_eq_getElem hi] at h
+  simp at h; simp [h] at hz; exact hz
+
+theorem drop_eq_nil_of_none {l : List Nat} {i : Nat} (h : l[i]? = none) : l.drop i = [] := by
+  apply List.drop_eq_nil_of_le
+  exact List.getElem?_eq_none_iff.1 h
+
+theorem take_eq_self_of_none {l : List Nat} {i : Nat} (h : l[i]? = none) : l.take i = l := by
+  apply List.take_of_length_le
+  exact List.getElem?_eq_none_iff.1 h
+
+theorem mem_take_succ {l : List Nat} {i n y : Nat} (h : l[i]? = some n) (hy : y ∈ l.take (i + 1)) :
+    y ∈ l.take i ∨ y = n := by
+  rw [List.take_add_one, h] at hy
+  simp at hy; exact hy
+
+theorem getElem?_mem {l : List Nat} {i n : Nat} (h : l[i]? = some n) : n ∈ l := List.mem_of_getElem? h
+
+/-! ### the cache contract (what the DFS proofs may assume of a cache) -/
+
+/-- `Rep s m`: cache state `s` stores only bindings of the ideal (never evicting) map `m`.
+This is exactly the C16 refinement: a hit returns the latest put of that key; a miss is always allowed;
+which entries survive (capacity, eviction choice) is unconstrained. -/
+structure Lawful {σ : Type} (C : CacheI σ) (Rep : σ → Ideal → Prop) : Prop where
+  get_rep : ∀ s m k, Rep s m → Rep (C.get s k).1 m
+  get_hit : ∀ s m k v, Rep s m → (C.get s k).2 = some v → m.get k = some v
+  put_rep : ∀ s m k v, Rep s m → Rep (C.put s k v) (m.put k v)
+
+/-- representation relation of the pair of SIEVE caches seen through one direction -/
+def dirRep : Dir → (Sieve × Sieve) → Ideal → Prop
+  | .inb, s, m => s.1.Inv ∧ s.1.Sub m
+  | .outb, s, m => s.2.Inv ∧ s.2.Sub m
+  | .both, _, _ => True
+
+/-- the C16 theorems give the contract for both SIEVE caches, for every capacity -/
+theorem dirCache_lawful (d : Dir) : Lawful (dirCache d) (dirRep d) := by
+  cases d with
+  | inb =>
+    refine ⟨?_, ?_, ?_⟩
+    · intro s m k h; exact ⟨Sieve.get_inv h.1 k, Sieve.get_sub h.2 k⟩
+    · intro s m k v h hv; exact Sieve.get_out h.2 k v hv
+    · intro s m k v h; exact ⟨Sieve.put_inv h.1 k v, Sieve.put_sub h.1 h.2 k v⟩
+  | outb =>
+    refine ⟨?_, ?_, ?_⟩
+    · intro s m k h; exact ⟨Sieve.get_inv h.1 k, Sieve.get_sub h.2 k⟩
+    · intro s m k v h hv; exact Sieve.get_out h.2 k v hv
+    · intro s m k v h; exact ⟨Sieve.put_inv h.1 k v, Sieve.put_sub h.1 h.2 k v⟩
+  | both =>
+    refine ⟨?_, ?_, ?_⟩
+    · intro s m k h; trivial
+    · intro s m k v h hv; cases hv
+    · intro s m k v h; trivial
+
+/-! ### the reach DFS: invariants of the REPAIRED loop (`fixed = true`) -/
+
+section DFS
+variable {σ : Type} (C : CacheI σ) (Rep : σ → Ideal → Prop) (adjf : Nat → List Nat)
+
+/-- bit set `r` is exactly the set of components reachable from `c` -/
+def ExactBits (c r : Nat) : Prop := ∀ x, hasBit r x = true ↔ Reach adjf c x
+
+/-- every binding of the ideal map is exact -/
+def CacheExact (m : Ideal) : Prop := ∀ k v, m.get k = some v → ExactBits adjf k v
+
+/-- everything that will have been rolled up into the root when the stack is empty again -/
+def InU (s : DState σ) (x : Nat) : Prop :=
+  hasBit s.root.reach x = true ∨ ∃ X, X ∈ s.stack ∧ hasBit X.reach x = true
+
+structure CurInv (V U : Nat → Prop) (rootComp : Nat) (X : RCur) : Prop where
+  adj_eq : X.adj = adjf X.comp
+  sound : ∀ z, hasBit X.reach z = true → Reach adjf X.comp z
+  fromRoot : Reach adjf rootComp X.comp
+  /-- a member of a cursor's reach is visited, or still to be tried by this cursor, or its whole reach
+  is already accounted for -/
+  pend : ∀ z, hasBit X.reach z = true → V z ∨ z ∈ X.adj.drop X.idx ∨ (∀ w, Reach adjf z w → U w)
+
+theorem CurInv.mono {V U V' U' : Nat → Prop} {c : Nat} {X : RCur} (hV : ∀ z, V z → V' z) (hU : ∀ z, U z → U' z)
+    (h : CurInv adjf V U c X) : CurInv adjf V' U' c X :=
+  ⟨h.adj_eq, h.sound, h.fromRoot, fun z hz => by
+    rcases h.pend z hz with h1 | h1 | h1
+    · exact Or.inl (hV z h1)
+    · exact Or.inr (Or.inl h1)
+    · exact Or.inr (Or.inr (fun w hw => hU w (h1 w hw)))⟩
+
+/-- an exact cursor already contains the whole reach of its first `n` neighbours -/
+def ExactUpTo (X : RCur) (n : Nat) : Prop :=
+  X.exact = true → hasBit X.reach X.comp = true ∧
+    ∀ y, y ∈ X.adj.take n → ∀ w, Reach adjf y w → hasBit X.reach w = true
+
+/-- the cursors below a child: each is waiting for the child it pushed last -/
+def Below : Nat → List RCur → Prop
+  | _, [] => True
+  | cc, P :: rest => P.adj[P.idx - 1]? = some cc ∧ 1 ≤ P.idx ∧ ExactUpTo adjf P (P.idx - 1) ∧ Below P.comp rest
+
+def StackInv : List RCur → Prop
+  | [] => True
+  | X :: rest => ExactUpTo adjf X X.idx ∧ Below adjf X.comp rest
+
+structure Inv (s : DState σ) : Prop where
+  cache : ∃ m, Rep s.cache m ∧ CacheExact adjf m
+  radj : s.root.adj = adjf s.root.comp
+  rsound : ∀ z, hasBit s.root.reach z = true → Reach adjf s.root.comp z
+  rself : hasBit s.root.reach s.root.comp = true
+  redges : ∀ x, hasBit s.root.reach x = true → ∀ y, y ∈ adjf x →
+    InU s y ∨ (x = s.root.comp ∧ y ∈ s.root.adj.drop s.root.idx)
+  curs : ∀ X, X ∈ s.stack → CurInv adjf (fun z => hasBit s.root.reach z = true) (InU s) s.root.comp X
+  chain : StackInv adjf s.stack
+
+/-- a completed exact cursor holds exactly the reach of its component -/
+theorem exactBits_of_done {V U : Nat → Prop} {c : Nat} {X : RCur} (hc : CurInv adjf V U c X)
+    (he : ExactUpTo adjf X X.idx) (hx : X.exact = true) (hd : X.adj[X.idx]? = none) :
+    ExactBits adjf X.comp X.reach := by
+  intro x
+  refine ⟨hc.sound x, fun hr => ?_⟩
+  have ⟨hself, hall⟩ := he hx
+  rw [take_eq_self_of_none hd] at hall
+  rcases hr.cases_head with rfl | ⟨y, hy, hyr⟩
+  · exact hself
+  · exact hall y (hc.adj_eq ▸ hy) x hyr
+
+theorem newCursor_exactUpTo (n : Nat) : ExactUpTo adjf (newCursor adjf n) 0 := by
+  intro _
+  refine ⟨?_, fun y hy => by simp at hy⟩
+  show hasBit (bitsOf (adjf n ++ [n])) n = true
+  rw [hasBit_bitsOf]; simp
+
+theorem newCursor_sound (n z : Nat) (h : hasBit (newCursor adjf n).reach z = true) : Reach adjf n z := by
+  have : z ∈ adjf n ++ [n] := (hasBit_bitsOf _ _).1 h
+  rcases List.mem_append.1 this with h1 | h1
+  · exact Reach.single h1
+  · simp at h1; subst h1; exact Reach.refl _
+
+theorem newCursor_mem (n z : Nat) (h : hasBit (newCursor adjf n).reach z = true) : z = n ∨ z ∈ adjf n := by
+  have : z ∈ adjf n ++ [n] := (hasBit_bitsOf _ _).1 h
+  rcases List.mem_append.1 this with h1 | h1
+  · exact Or.inr h1
+  · simp at h1; exact Or.inl h1
+
+theorem ExactUpTo.or_reach {X : RCur} {n : Nat} (r : Nat) (h : ExactUpTo adjf X n) :
+    ExactUpTo adjf { X with reach := X.reach ||| r } n := by
+  intro hx
+  have ⟨h1, h2⟩ := h hx
+  exact ⟨hasBit_or_left h1, fun y hy w hw => hasBit_or_left (h2 y hy w hw)⟩
+
+theorem cacheExact_put {m : Ideal} (hm : CacheExact adjf m) {k v : Nat} (hv : ExactBits adjf k v) :
+    CacheExact adjf (m.put k v) := by
+  intro x w hx
+  rw [Dawgs.C16.Ideal.get_put] at hx
+  by_cases hxk : x = k
+  · simp [hxk] at hx; subst hx; subst hxk; exact hv
+  · simp [hxk] at hx; exact hm x w hx
+
+/-- the root step when the stack is empty -/
+theorem dfsStep_inv_root (hL : Lawful C Rep) (cache : σ) (root : RCur)
+    (hinv : Inv Rep adjf ⟨cache, root, []⟩) :
+    match dfsStep C adjf true ⟨cache, root, []⟩ with
+    | .running s' => Inv Rep adjf s' ∧ s'.root.comp = root.comp
+    | .done cache' r => ExactBits adjf root.comp r ∧ ∃ m, Rep cache' m ∧ CacheExact adjf m := by
+  obtain ⟨m, hrep, hex⟩ := hinv.cache
+  have radj := hinv.radj
+  have rsound := hinv.rsound
+  have rself := hinv.rself
+  have redges := hinv.redges
+  simp only at radj rsound rself redges
+  cases hn : root.adj[root.idx]? with
+  | none =>
+    have e : dfsStep C adjf true ⟨cache, root, []⟩ = .done (C.put cache root.comp root.reach) root.reach := by
+      simp [dfsStep, hn]
+    rw [e]
+    have hb : ExactBits adjf root.comp root.reach := by
+      intro x
+      refine ⟨rsound x, fun hr => ?_⟩
+      refine hr.closed (P := fun x => hasBit root.reach x = true) rself ?_
+      intro x hx y hy
+      rcases redges x hx y hy with h | ⟨_, h⟩
+      · rcases h with h | ⟨X, hX, _⟩
+        · exact h
+        · simp at hX
+      · rw [drop_eq_nil_of_none hn] at h; simp at h
+    exact ⟨hb, m.put root.comp root.reach, hL.put_rep _ _ _ _ hrep, cacheExact_put adjf hex hb⟩
+  | some n =>
+    have hnadj : n ∈ adjf root.comp := radj ▸ getElem?_mem hn
+    by_cases hv : hasBit root.reach n = true
+    · -- visited: skip
+      have e : dfsStep C adjf true ⟨cache, root, []⟩ =
+          .running ⟨cache, { root with idx := root.idx + 1, exact := false }, []⟩ := by
+        simp [dfsStep, hn, hv]
+      rw [e]
+      refine ⟨⟨⟨m, hrep, hex⟩, radj, rsound, rself, ?_, ?_, trivial⟩, rfl⟩
+      · intro x hx y hy
+        rcases redges x hx y hy with h | ⟨h1, h2⟩
+        · rcases h with h | ⟨X, hX, _⟩
+          · exact Or.inl (Or.inl h)
+          · simp at hX
+        · rcases mem_drop_succ_or hn h2 with rfl | h3
+          · exact Or.inl (Or.inl hv)
+          · exact Or.inr ⟨h1, h3⟩
+      · intro X hX; simp at hX
+    · -- not visited
+      have hvf : hasBit root.reach n = false := by simpa using hv
+      cases hg : (C.get cache n).2 with
+      | some r =>
+        have e : dfsStep C adjf true ⟨cache, root, []⟩ =
+            .running ⟨(C.get cache n).1, { root with idx := root.idx + 1, reach := setBit root.reach n ||| r }, []⟩ := by
+          simp [dfsStep, hn, hvf, hg]
+        rw [e]
+        have hr : ExactBits adjf n r := hex n r (hL.get_hit _ _ _ _ hrep hg)
+        refine ⟨⟨⟨m, hL.get_rep _ _ _ hrep, hex⟩, radj, ?_, ?_, ?_, ?_, trivial⟩, rfl⟩
+        · intro z hz
+          rcases hasBit_or_iff.1 hz with h | h
+          · rcases (hasBit_setBit _ _ _).1 h with h | rfl
+            · exact rsound z h
+            · exact Reach.single hnadj
+          · exact Reach.head hnadj ((hr z).1 h)
+        · exact hasBit_or_left (hasBit_setBit_of _ _ _ rself)
+        · intro x hx y hy
+          show InU _ y ∨ _
+          have inl : ∀ y, hasBit r y = true →
+              InU (σ := σ) ⟨(C.get cache n).1, { root with idx := root.idx + 1, reach := setBit root.reach n ||| r }, []⟩ y :=
+            fun y h => Or.inl (hasBit_or_right h)
+          rcases hasBit_or_iff.1 hx with h | h
+          · rcases (hasBit_setBit _ _ _).1 h with h | rfl
+            · rcases redges x h y hy with h' | ⟨h1, h2⟩
+              · rcases h' with h' | ⟨X, hX, _⟩
+                · exact Or.inl (Or.inl (hasBit_or_left (hasBit_setBit_of _ _ _ h')))
+                · simp at hX
+              · rcases mem_drop_succ_or hn h2 with rfl | h3
+                · exact Or.inl (Or.inl (hasBit_or_left (hasBit_setBit_self _ _)))
+                · exact Or.inr ⟨h1, h3⟩
+            · exact Or.inl (inl y ((hr y).2 (Reach.single hy)))
+          · exact Or.inl (inl y ((hr y).2 (Reach.tail ((hr x).1 h) hy)))
+        · intro X hX; simp at hX
+      | none =>
+        have e : dfsStep C adjf true ⟨cache, root, []⟩ =
+            .running ⟨(C.get cache n).1, { root with idx := root.idx + 1, reach := setBit root.reach n }, [newCursor adjf n]⟩ := by
+          simp [dfsStep, hn, hvf, hg]
+        rw [e]
+        refine ⟨⟨⟨m, hL.get_rep _ _ _ hrep, hex⟩, radj, ?_, ?_, ?_, ?_, ?_⟩, rfl⟩
+        · intro z hz
+          rcases (hasBit_setBit _ _ _).1 hz with h | rfl
+          · exact rsound z h
+          · exact Reach.single hnadj
+        · exact hasBit_setBit_of _ _ _ rself
+        · intro x hx y hy
+          rcases (hasBit_setBit _ _ _).1 hx with h | rfl
+          · rcases redges x h y hy with h' | ⟨h1, h2⟩
+            · rcases h' with h' | ⟨X, hX, _⟩
+              · exact Or.inl (Or.inl (hasBit_setBit_of _ _ _ h'))
+              · simp at hX
+            · rcases mem_drop_succ_or hn h2 with rfl | h3
+              · exact Or.inl (Or.inl (hasBit_setBit_self _ _))
+              · exact Or.inr ⟨h1, h3⟩
+          · refine Or.inl (Or.inr ⟨newCursor adjf x, by simp, ?_⟩)
+            show hasBit (bitsOf (adjf x ++ [x])) y = true
+            rw [hasBit_bitsOf]; simp [hy]
+        · intro X hX
+          simp at hX; subst hX
+          refine ⟨rfl, newCursor_sound adjf n, Reach.single hnadj, ?_⟩
+          intro z hz
+          rcases newCursor_mem adjf n z hz with rfl | h
+          · exact Or.inl (hasBit_setBit_self _ _)
+          · exact Or.inr (Or.inl (by simpa [newCursor] using h))
+        · exact ⟨newCursor_exactUpTo adjf n, trivial⟩
+
+theorem putCursor_exact (hL : Lawful C Rep) {cache : σ} {m : Ideal} (hrep : Rep cache m) (hex : CacheExact adjf m)
+    (X : RCur) (hX : X.exact = true → ExactBits adjf X.comp X.reach) :
+    ∃ m', Rep (putCursor C true cache X) m' ∧ CacheExact adjf m' := by
+  unfold putCursor
+  cases hx : X.exact with
+  | true => exact ⟨m.put X.comp X.reach, by simpa using hL.put_rep _ _ _ _ hrep, cacheExact_put adjf hex (hX hx)⟩
+  | false => exact ⟨m, by simpa using hrep, hex⟩
+
+/-- the step when a non-root cursor is on top -/
+theorem dfsStep_inv_top (hL : Lawful C Rep) (cache : σ) (root top : RCur) (rest : List RCur)
+    (hinv : Inv Rep adjf ⟨cache, root, top :: rest⟩) :
+    match dfsStep C adjf true ⟨cache, root, top :: rest⟩ with
+    | .running s' => Inv Rep adjf s' ∧ s'.root.comp = root.comp
+    | .done _ _ => False := by
+  obtain ⟨m, hrep, hex⟩ := hinv.cache
+  have radj := hinv.radj
+  have rsound := hinv.rsound
+  have rself := hinv.rself
+  have redges := hinv.redges
+  have curs := hinv.curs
+  have chain := hinv.chain
+  simp only at radj rsound rself redges curs chain
+  have htop := curs top (by simp)
+  have hchain : ExactUpTo adjf top top.idx ∧ Below adjf top.comp rest := chain
+  cases hn : top.adj[top.idx]? with
+  | none =>
+    -- pop
+    have hcache := putCursor_exact C Rep adjf hL hrep hex top
+      (fun hx => exactBits_of_done adjf htop hchain.1 hx hn)
+    have hdrop : top.adj.drop top.idx = [] := drop_eq_nil_of_none hn
+    cases rest with
+    | nil =>
+      have e : dfsStep C adjf true ⟨cache, root, [top]⟩ =
+          .running ⟨putCursor C true cache top, rollUp root top, []⟩ := by
+        simp [dfsStep, hn]
+      rw [e]
+      have hU : ∀ y, InU (σ := σ) ⟨cache, root, [top]⟩ y → hasBit (root.reach ||| top.reach) y = true := by
+        intro y h
+        rcases h with h | ⟨X, hX, h⟩
+        · exact hasBit_or_left h
+        · simp at hX; subst hX; exact hasBit_or_right h
+      refine ⟨⟨hcache, radj, ?_, hasBit_or_left rself, ?_, ?_, trivial⟩, rfl⟩
+      · intro z hz
+        rcases hasBit_or_iff.1 hz with h | h
+        · exact rsound z h
+        · exact htop.fromRoot.trans (htop.sound z h)
+      · intro x hx y hy
+        have old : hasBit root.reach x = true →
+            (InU (σ := σ) ⟨putCursor C true cache top, rollUp root top, []⟩ y ∨
+              (x = root.comp ∧ y ∈ root.adj.drop root.idx)) := fun h => by
+          rcases redges x h y hy with h' | h'
+          · exact Or.inl (Or.inl (hU y h'))
+          · exact Or.inr h'
+        rcases hasBit_or_iff.1 hx with h | h
+        · exact old h
+        · rcases htop.pend x h with h1 | h1 | h1
+          · exact old h1
+          · rw [hdrop] at h1; simp at h1
+          · exact Or.inl (Or.inl (hU y (h1 y (Reach.single hy))))
+      · intro X hX; simp at hX
+    | cons P rest' =>
+      have e : dfsStep C adjf true ⟨cache, root, top :: P :: rest'⟩ =
+          .running ⟨putCursor C true cache top, root, rollUp P top :: rest'⟩ := by
+        simp [dfsStep, hn]
+      rw [e]
+      have hP := curs P (by simp)
+      obtain ⟨hlink, hidx, hPex, hbelow⟩ : P.adj[P.idx - 1]? = some top.comp ∧ 1 ≤ P.idx ∧
+          ExactUpTo adjf P (P.idx - 1) ∧ Below adjf P.comp rest' := hchain.2
+      have hU : ∀ y, InU (σ := σ) ⟨cache, root, top :: P :: rest'⟩ y →
+          InU (σ := σ) ⟨putCursor C true cache top, root, rollUp P top :: rest'⟩ y := by
+        intro y h
+        rcases h with h | ⟨X, hX, h⟩
+        · exact Or.inl h
+        · simp at hX
+          rcases hX with rfl | rfl | hX
+          · exact Or.inr ⟨rollUp P X, by simp, hasBit_or_right h⟩
+          · exact Or.inr ⟨rollUp X top, by simp, hasBit_or_left h⟩
+          · exact Or.inr ⟨X, by simp [hX], h⟩
+      have hPtop : Reach adjf P.comp top.comp := Reach.single (hP.adj_eq ▸ getElem?_mem hlink)
+      refine ⟨⟨hcache, radj, rsound, rself, ?_, ?_, ?_⟩, rfl⟩
+      · intro x hx y hy
+        rcases redges x hx y hy with h' | h'
+        · exact Or.inl (hU y h')
+        · exact Or.inr h'
+      · intro X hX
+        simp at hX
+        rcases hX with rfl | hX
+        · refine ⟨hP.adj_eq, ?_, hP.fromRoot, ?_⟩
+          · intro z hz
+            rcases hasBit_or_iff.1 hz with h | h
+            · exact hP.sound z h
+            · exact hPtop.trans (htop.sound z h)
+          · intro z hz
+            rcases hasBit_or_iff.1 hz with h | h
+            · rcases hP.pend z h with h1 | h1 | h1
+              · exact Or.inl h1
+              · exact Or.inr (Or.inl h1)
+              · exact Or.inr (Or.inr (fun w hw => hU w (h1 w hw)))
+            · rcases htop.pend z h with h1 | h1 | h1
+              · exact Or.inl h1
+              · rw [hdrop] at h1; simp at h1
+              · exact Or.inr (Or.inr (fun w hw => hU w (h1 w hw)))
+        · exact (curs X (by simp [hX])).mono adjf (fun _ h => h) hU
+      · refine ⟨?_, hbelow⟩
+        intro hx
+        have hx' : P.exact = true ∧ top.exact = true := by simpa [rollUp] using hx
+        have ⟨hs, hall⟩ := hPex hx'.1
+        have htb : ExactBits adjf top.comp top.reach := exactBits_of_done adjf htop hchain.1 hx'.2 hn
+        refine ⟨hasBit_or_left hs, ?_⟩
+        intro y hy w hw
+        have hy' : y ∈ P.adj.take (P.idx - 1 + 1) := by
+          have : P.idx - 1 + 1 = P.idx := by omega
+          rw [this]; exact hy
+        rcases mem_take_succ hlink hy' with h1 | rfl
+        · exact hasBit_or_left (hall y h1 w hw)
+        · exact hasBit_or_right ((htb w).2 hw)
+  | some n =>
+    have hnadj : n ∈ adjf top.comp := htop.adj_eq ▸ getElem?_mem hn
+    by_cases hv : hasBit root.reach n = true
+    · -- visited: skip, the cursor is no longer exact
+      have e : dfsStep C adjf true ⟨cache, root, top :: rest⟩ =
+          .running ⟨cache, root, { top with idx := top.idx + 1, exact := false } :: rest⟩ := by
+        simp [dfsStep, hn, hv]
+      rw [e]
+      have hU : ∀ y, InU (σ := σ) ⟨cache, root, top :: rest⟩ y →
+          InU (σ := σ) ⟨cache, root, { top with idx := top.idx + 1, exact := false } :: rest⟩ y := by
+        intro y h
+        rcases h with h | ⟨X, hX, h⟩
+        · exact Or.inl h
+        · simp at hX
+          rcases hX with rfl | hX
+          · exact Or.inr ⟨{ X with idx := X.idx + 1, exact := false }, by simp, h⟩
+          · exact Or.inr ⟨X, by simp [hX], h⟩
+      refine ⟨⟨⟨m, hrep, hex⟩, radj, rsound, rself, ?_, ?_, ?_⟩, rfl⟩
+      · intro x hx y hy
+        rcases redges x hx y hy with h' | h'
+        · exact Or.inl (hU y h')
+        · exact Or.inr h'
+      · intro X hX
+        simp at hX
+        rcases hX with rfl | hX
+        · refine ⟨htop.adj_eq, htop.sound, htop.fromRoot, ?_⟩
+          intro z hz
+          rcases htop.pend z hz with h1 | h1 | h1
+          · exact Or.inl h1
+          · rcases mem_drop_succ_or hn h1 with rfl | h3
+            · exact Or.inl hv
+            · exact Or.inr (Or.inl h3)
+          · exact Or.inr (Or.inr (fun w hw => hU w (h1 w hw)))
+        · exact (curs X (by simp [hX])).mono adjf (fun _ h => h) hU
+      · exact ⟨fun hx => by simp at hx, hchain.2⟩
+    · have hvf : hasBit root.reach n = false := by simpa using hv
+      cases hg : (C.get cache n).2 with
+      | some r =>
+        have e : dfsStep C adjf true ⟨cache, root, top :: rest⟩ =
+            .running ⟨(C.get cache n).1, { root with reach := setBit root.reach n },
+              { top with idx := top.idx + 1, reach := top.reach ||| r } :: rest⟩ := by
+          simp [dfsStep, hn, hvf, hg]
+        rw [e]
+        have hr : ExactBits adjf n r := hex n r (hL.get_hit _ _ _ _ hrep hg)
+        have hU : ∀ y, InU (σ := σ) ⟨cache, root, top :: rest⟩ y →
+            InU (σ := σ) ⟨(C.get cache n).1, { root with reach := setBit root.reach n },
+              { top with idx := top.idx + 1, reach := top.reach ||| r } :: rest⟩ y := by
+          intro y h
+          rcases h with h | ⟨X, hX, h⟩
+          · exact Or.inl (hasBit_setBit_of _ _ _ h)
+          · simp at hX
+            rcases hX with rfl | hX
+            · exact Or.inr ⟨{ X with idx := X.idx + 1, reach := X.reach ||| r }, by simp, hasBit_or_left h⟩
+            · exact Or.inr ⟨X, by simp [hX], h⟩
+        have hUr : ∀ y, hasBit r y = true →
+            InU (σ := σ) ⟨(C.get cache n).1, { root with reach := setBit root.reach n },
+              { top with idx := top.idx + 1, reach := top.reach ||| r } :: rest⟩ y :=
+          fun y h => Or.inr ⟨{ top with idx := top.idx + 1, reach := top.reach ||| r }, by simp, hasBit_or_right h⟩
+        refine ⟨⟨⟨m, hL.get_rep _ _ _ hrep, hex⟩, radj, ?_, hasBit_setBit_of _ _ _ rself, ?_, ?_, ?_⟩, rfl⟩
+        · intro z hz
+          rcases (hasBit_setBit _ _ _).1 hz with h | rfl
+          · exact rsound z h
+          · exact htop.fromRoot.trans (Reach.single hnadj)
+        · intro x hx y hy
+          rcases (hasBit_setBit _ _ _).1 hx with h | rfl
+          · rcases redges x h y hy with h' | h'
+            · exact Or.inl (hU y h')
+            · exact Or.inr h'
+          · exact Or.inl (hUr y ((hr y).2 (Reach.single hy)))
+        · intro X hX
+          simp at hX
+          rcases hX with rfl | hX
+          · refine ⟨htop.adj_eq, ?_, htop.fromRoot, ?_⟩
+            · intro z hz
+              rcases hasBit_or_iff.1 hz with h | h
+              · exact htop.sound z h
+              · exact Reach.head hnadj ((hr z).1 h)
+            · intro z hz
+              rcases hasBit_or_iff.1 hz with h | h
+              · rcases htop.pend z h with h1 | h1 | h1
+                · exact Or.inl (hasBit_setBit_of _ _ _ h1)
+                · rcases mem_drop_succ_or hn h1 with rfl | h3
+                  · exact Or.inl (hasBit_setBit_self _ _)
+                  · exact Or.inr (Or.inl h3)
+                · exact Or.inr (Or.inr (fun w hw => hU w (h1 w hw)))
+              · exact Or.inr (Or.inr (fun w hw => hUr w ((hr w).2 (((hr z).1 h).trans hw))))
+          · exact (curs X (by simp [hX])).mono adjf (fun _ h => hasBit_setBit_of _ _ _ h) hU
+        · refine ⟨?_, hchain.2⟩
+          intro hx
+          have ⟨hs, hall⟩ := hchain.1 hx
+          refine ⟨hasBit_or_left hs, ?_⟩
+          intro y hy w hw
+          rcases mem_take_succ hn hy with h1 | rfl
+          · exact hasBit_or_left (hall y h1 w hw)
+          · exact hasBit_or_right ((hr w).2 hw)
+      | none =>
+        have e : dfsStep C adjf true ⟨cache, root, top :: rest⟩ =
+            .running ⟨(C.get cache n).1, { root with reach := setBit root.reach n },
+              newCursor adjf n :: { top with idx := top.idx + 1 } :: rest⟩ := by
+          simp [dfsStep, hn, hvf, hg]
+        rw [e]
+        have hU : ∀ y, InU (σ := σ) ⟨cache, root, top :: rest⟩ y →
+            InU (σ := σ) ⟨(C.get cache n).1, { root with reach := setBit root.reach n },
+              newCursor adjf n :: { top with idx := top.idx + 1 } :: rest⟩ y := by
+          intro y h
+          rcases h with h | ⟨X, hX, h⟩
+          · exact Or.inl (hasBit_setBit_of _ _ _ h)
+          · simp at hX
+            rcases hX with rfl | hX
+            · exact Or.inr ⟨{ X with idx := X.idx + 1 }, by simp, h⟩
+            · exact Or.inr ⟨X, by simp [hX], h⟩
+        refine ⟨⟨⟨m, hL.get_rep _ _ _ hrep, hex⟩, radj, ?_, hasBit_setBit_of _ _ _ rself, ?_, ?_, ?_⟩, rfl⟩
+        · intro z hz
+          rcases (hasBit_setBit _ _ _).1 hz with h | rfl
+          · exact rsound z h
+          · exact htop.fromRoot.trans (Reach.single hnadj)
+        · intro x hx y hy
+          rcases (hasBit_setBit _ _ _).1 hx with h | rfl
+          · rcases redges x h y hy with h' | h'
+            · exact Or.inl (hU y h')
+            · exact Or.inr h'
+          · refine Or.inl (Or.inr ⟨newCursor adjf x, by simp, ?_⟩)
+            show hasBit (bitsOf (adjf x ++ [x])) y = true
+            rw [hasBit_bitsOf]; simp [hy]
+        · intro X hX
+          simp at hX
+          rcases hX with rfl | rfl | hX
+          · refine ⟨rfl, newCursor_sound adjf n, htop.fromRoot.trans (Reach.single hnadj), ?_⟩
+            intro z hz
+            rcases newCursor_mem adjf n z hz with rfl | h
+            · exact Or.inl (hasBit_setBit_self _ _)
+            · exact Or.inr (Or.inl (by simpa [newCursor] using h))
+          · refine ⟨htop.adj_eq, htop.sound, htop.fromRoot, ?_⟩
+            intro z hz
+            rcases htop.pend z hz with h1 | h1 | h1
+            · exact Or.inl (hasBit_setBit_of _ _ _ h1)
+            · rcases mem_drop_succ_or hn h1 with rfl | h3
+              · exact Or.inl (hasBit_setBit_self _ _)
+              · exact Or.inr (Or.inl h3)
+            · exact Or.inr (Or.inr (fun w hw => hU w (h1 w hw)))
+          · exact (curs X (by simp [hX])).mono adjf (fun _ h => hasBit_setBit_of _ _ _ h) hU
+        · refine ⟨newCursor_exactUpTo adjf n, ?_, by simp, ?_, hchain.2⟩
+          · simpa [newCursor] using hn
+          · show ExactUpTo adjf _ (top.idx + 1 - 1)
+            rw [Nat.add_sub_cancel]; exact hchain.1
+
+theorem dfsLoop_inv (hL : Lawful C Rep) (fuel : Nat) (s : DState σ) (hinv : Inv Rep adjf s)
+    (cache' : σ) (r : Nat) (h : dfsLoop C adjf true fuel s = some (cache', r)) :
+    ExactBits adjf s.root.comp r ∧ ∃ m, Rep cache' m ∧ CacheExact adjf m := by
+  induction fuel generalizing s with
+  | zero => simp [dfsLoop] at h
+  | succ fuel ih =>
+    obtain ⟨cache, root, stack⟩ := s
+    unfold dfsLoop at h
+    cases stack with
+    | nil =>
+      have := dfsStep_inv_root C Rep adjf hL cache root hinv
+      cases hs : dfsStep C adjf true ⟨cache, root, []⟩ with
+      | running s' =>
+        rw [hs] at this h
+        have := ih s' this.1 h
+        rw [‹Inv Rep adjf s' ∧ s'.root.comp = root.comp›.2] at this
+        exact this
+      | done c r' =>
+        rw [hs] at this h
+        simp at h
+        obtain ⟨rfl, rfl⟩ := h
+        exact this
+    | cons top rest =>
+      have := dfsStep_inv_top C Rep adjf hL cache root top rest hinv
+      cases hs : dfsStep C adjf true ⟨cache, root, top :: rest⟩ with
+      | running s' =>
+        rw [hs] at this h
+        have h2 := ih s' this.1 h
+        rw [this.2] at h2
+        exact h2
+      | done c r' =>
+        rw [hs] at this
+        exact this.elim
+
+theorem inv_init {cache : σ} {m : Ideal} (hrep : Rep cache m) (hex : CacheExact adjf m) (c : Nat) :
+    Inv Rep adjf ⟨cache, newRootCursor adjf c, []⟩ := by
+  refine ⟨⟨m, hrep, hex⟩, rfl, ?_, hasBit_setBit_self _ _, ?_, ?_, trivial⟩
+  · intro z hz
+    rcases (hasBit_setBit _ _ _).1 hz with h | rfl
+    · simp [hasBit_zero] at h
+    · exact Reach.refl _
+  · intro x hx y hy
+    rcases (hasBit_setBit _ _ _).1 hx with h | rfl
+    · simp [hasBit_zero] at h
+    · exact Or.inr ⟨rfl, by simpa [newRootCursor] using hy⟩
+  · intro X hX; simp at hX
+
+/-- **the repaired `componentReachDFS` keeps the cache exact and answers exactly**, for every cache that
+satisfies the contract (any capacity, any eviction choice) and every fuel -/
+theorem reachDFS_fixed_exact (hL : Lawful C Rep) (fuel : Nat) (cache : σ) (m : Ideal) (hrep : Rep cache m)
+    (hex : CacheExact adjf m) (c : Nat) (cache' : σ) (r : Nat)
+    (h : reachDFS C adjf true fuel cache c = some (cache', r)) :
+    ExactBits adjf c r ∧ ∃ m', Rep cache' m' ∧ CacheExact adjf m' := by
+  unfold reachDFS at h
+  cases hg : (C.get cache c).2 with
+  | some r' =>
+    rw [hg] at h
+    simp at h
+    obtain ⟨rfl, rfl⟩ := h
+    exact ⟨hex c r' (hL.get_hit _ _ _ _ hrep hg), m, hL.get_rep _ _ _ hrep, hex⟩
+  | none =>
+    rw [hg] at h
+    simp only at h
+    exact dfsLoop_inv C Rep adjf hL fuel _ (inv_init Rep adjf (hL.get_rep _ _ c hrep) hex c) cache' r h
+
+end DFS
+
+/-! ### the reach DFS terminates within its fuel (either variant) -/
+
+section DFSTerm
+variable {σ : Type} (C : CacheI σ) (adjf : Nat → List Nat) (univ : List Nat) (K : Nat)
+
+/-- number of universe members not yet in the visited bit set -/
+def unvis (V : Nat) : Nat := (univ.filter (fun i => !hasBit V i)).length
+
+theorem unvis_mono {V V' : Nat} (h : ∀ i, hasBit V i = true → hasBit V' i = true) :
+    unvis univ V' ≤ unvis univ V := by
+  unfold unvis
+  induction univ with
+  | nil => simp
+  | cons a t ih =>
+    simp only [List.filter_cons]
+    cases h1 : hasBit V a with
+    | true => simp [h a h1]; exact ih
+    | false =>
+      cases h2 : hasBit V' a with
+      | true => simp; omega
+      | false => simp; exact ih
+
+theorem unvis_strict {V V' n : Nat} (h : ∀ i, hasBit V i = true → hasBit V' i = true) (hn : n ∈ univ)
+    (h1 : hasBit V n = false) (h2 : hasBit V' n = true) : unvis univ V' + 1 ≤ unvis univ V := by
+  unfold unvis
+  induction univ with
+  | nil => simp at hn
+  | cons a t ih =>
+    simp only [List.filter_cons]
+    rcases List.mem_cons.1 hn with rfl | hn'
+    · simp [h1, h2]
+      exact unvis_mono t h
+    · cases h3 : hasBit V a with
+      | true => simp [h a h3]; exact ih hn'
+      | false =>
+        cases h4 : hasBit V' a with
+        | true => simp; have := ih hn'; omega
+        | false => simp; exact ih hn'
+
+def work (X : RCur) : Nat := (X.adj.length - X.idx) + 1
+
+def workSum : List RCur → Nat
+  | [] => 0
+  | X :: r => work X + workSum r
+
+/-- the termination measure: every iteration of the DFS loop decreases it -/
+def mu (s : DState σ) : Nat := unvis univ s.root.reach * K + workSum s.stack + work s.root
+
+structure TInv (s : DState σ) : Prop where
+  radj : ∀ y, y ∈ s.root.adj → y ∈ univ
+  sadj : ∀ X, X ∈ s.stack → ∀ y, y ∈ X.adj → y ∈ univ
+
+theorem getElem?_lt {l : List Nat} {i n : Nat} (h : l[i]? = some n) : i < l.length := by
+  rcases Nat.lt_or_ge i l.length with h' | h'
+  · exact h'
+  · rw [List.getElem?_eq_none h'] at h; cases h
+
+theorem dfsStep_decreases (fixed : Bool) (hadj : ∀ c y, y ∈ adjf c → y ∈ univ)
+    (hK : ∀ c, (adjf c).length + 2 ≤ K) (s : DState σ) (ht : TInv univ s) :
+    match dfsStep C adjf fixed s with
+    | .running s' => TInv univ s' ∧ mu univ K s' + 1 ≤ mu univ K s
+    | .done _ _ => True := by
+  obtain ⟨cache, root, stack⟩ := s
+  have hradj := ht.radj
+  have hsadj := ht.sadj
+  simp only at hradj hsadj
+  cases stack with
+  | nil =>
+    cases hn : root.adj[root.idx]? with
+    | none => simp [dfsStep, hn]
+    | some n =>
+      have hlt := getElem?_lt hn
+      have hnu : n ∈ univ := hradj n (getElem?_mem hn)
+      cases hv : hasBit root.reach n with
+      | true =>
+        simp only [dfsStep, hn, hv, if_true]
+        refine ⟨⟨hradj, by simp⟩, ?_⟩
+        simp only [mu, workSum, work]; omega
+      | false =>
+        cases hg : (C.get cache n).2 with
+        | some r =>
+          simp only [dfsStep, hn, hv, hg]
+          refine ⟨⟨hradj, by simp⟩, ?_⟩
+          have := unvis_mono univ (V := root.reach) (V' := setBit root.reach n ||| r)
+            (fun i h => hasBit_or_left (hasBit_setBit_of _ _ _ h))
+          have := Nat.mul_le_mul_right K this
+          simp only [mu, workSum, work, Bool.false_eq_true, if_false]; omega
+        | none =>
+          simp only [dfsStep, hn, hv, hg]
+          refine ⟨⟨hradj, ?_⟩, ?_⟩
+          · intro X hX y hy; simp at hX; subst hX; exact hadj n y hy
+          have h1 := unvis_strict univ (V := root.reach) (V' := setBit root.reach n)
+            (fun i h => hasBit_setBit_of _ _ _ h) hnu hv (hasBit_setBit_self _ _)
+          have h2 := Nat.mul_le_mul_right K h1
+          rw [Nat.add_mul, Nat.one_mul] at h2
+          have h3 := hK n
+          simp only [mu, workSum, work, newCursor, Bool.false_eq_true, if_false]; omega
+  | cons top rest =>
+    have htadj := hsadj top (by simp)
+    cases hn : top.adj[top.idx]? with
+    | none =>
+      cases rest with
+      | nil =>
+        simp only [dfsStep, hn]
+        refine ⟨⟨hradj, by simp⟩, ?_⟩
+        have := unvis_mono univ (V := root.reach) (V' := root.reach ||| top.reach) (fun i h => hasBit_or_left h)
+        have := Nat.mul_le_mul_right K this
+        simp only [mu, workSum, work, rollUp]; omega
+      | cons P rest' =>
+        simp only [dfsStep, hn]
+        refine ⟨⟨hradj, ?_⟩, ?_⟩
+        · intro X hX y hy
+          simp at hX
+          rcases hX with rfl | hX
+          · exact hsadj P (by simp) y hy
+          · exact hsadj X (by simp [hX]) y hy
+        simp only [mu, workSum, work, rollUp]; omega
+    | some n =>
+      have hlt := getElem?_lt hn
+      have hnu : n ∈ univ := htadj n (getElem?_mem hn)
+      cases hv : hasBit root.reach n with
+      | true =>
+        simp only [dfsStep, hn, hv, if_true]
+        refine ⟨⟨hradj, ?_⟩, ?_⟩
+        · intro X hX y hy
+          simp at hX
+          rcases hX with rfl | hX
+          · exact htadj y hy
+          · exact hsadj X (by simp [hX]) y hy
+        simp only [mu, workSum, work]; omega
+      | false =>
+        have h1 := unvis_strict univ (V := root.reach) (V' := setBit root.reach n)
+          (fun i h => hasBit_setBit_of _ _ _ h) hnu hv (hasBit_setBit_self _ _)
+        have h2 := Nat.mul_le_mul_right K h1
+        rw [Nat.add_mul, Nat.one_mul] at h2
+        cases hg : (C.get cache n).2 with
+        | some r =>
+          simp only [dfsStep, hn, hv, hg]
+          refine ⟨⟨hradj, ?_⟩, ?_⟩
+          · intro X hX y hy
+            simp at hX
+            rcases hX with rfl | hX
+            · exact htadj y hy
+            · exact hsadj X (by simp [hX]) y hy
+          simp only [mu, workSum, work, Bool.false_eq_true, if_false]; omega
+        | none =>
+          simp only [dfsStep, hn, hv, hg]
+          refine ⟨⟨hradj, ?_⟩, ?_⟩
+          · intro X hX y hy
+            simp at hX
+            rcases hX with rfl | rfl | hX
+            · exact hadj n y hy
+            · exact htadj y hy
+            · exact hsadj X (by simp [hX]) y hy
+          have h3 := hK n
+          simp only [mu, workSum, work, newCursor, Bool.false_eq_true, if_false]; omega
+
+theorem dfsLoop_terminates (fixed : Bool) (hadj : ∀ c y, y ∈ adjf c → y ∈ univ)
+    (hK : ∀ c, (adjf c).length + 2 ≤ K) (fuel : Nat) (s : DState σ) (ht : TInv univ s)
+    (hf : mu univ K s < fuel) : (dfsLoop C adjf fixed fuel s).isSome = true := by
+  induction fuel generalizing s with
+  | zero => omega
+  | succ fuel ih =>
+    unfold dfsLoop
+    have := dfsStep_decreases C adjf univ K fixed hadj hK s ht
+    cases hs : dfsStep C adjf fixed s with
+    | done c r => simp
+    | running s' =>
+      rw [hs] at this
+      simp only
+      exact ih s' this.1 (by omega)
+
+/-- `componentReachDFS` always returns when given `2·(|V|+1)² + 1` iterations of fuel (adjacency lists are
+at most `2·|V|` long: outbound followed by inbound for `DirectionBoth`) -/
+theorem reachDFS_terminates (fixed : Bool) (hadj : ∀ c y, y ∈ adjf c → y ∈ univ)
+    (hlen : ∀ c, (adjf c).length ≤ 2 * univ.length) (cache : σ) (c : Nat) :
+    (reachDFS C adjf fixed (dfsFuel univ.length) cache c).isSome = true := by
+  unfold reachDFS
+  cases hg : (C.get cache c).2 with
+  | some r => simp
+  | none =>
+    simp only
+    apply dfsLoop_terminates C adjf univ (2 * univ.length + 2) fixed hadj (fun c => by have := hlen c; omega)
+    · exact ⟨fun y hy => hadj c y hy, by simp⟩
+    · have h1 : unvis univ (setBit 0 c) ≤ univ.length := by
+        unfold unvis; exact List.length_filter_le _ _
+      have h2 := Nat.mul_le_mul_right (2 * univ.length + 2) h1
+      have h3 := hlen c
+      have h4 : univ.length * (2 * univ.length + 2) = 2 * (univ.length * univ.length) + 2 * univ.length := by
+        rw [Nat.mul_add, Nat.mul_left_comm]; omega
+      have h5 : 2 * (univ.length + 1) * (univ.length + 1) = 2 * (univ.length * univ.length) + 4 * univ.length + 2 := by
+        rw [Nat.mul_assoc, Nat.add_mul, Nat.mul_add, Nat.mul_add]; omega
+      simp only [mu, workSum, work, newRootCursor, dfsFuel]
+      omega
+
+end DFSTerm
 
 end Dawgs.C15
